@@ -9,7 +9,7 @@ Allowed rewrites (from the property statement):
   * drop statements made unreachable by return / raise / break / continue
   * an `if` whose branches are both empty keeps only its test's evaluation (and disappears if the test is effect free);
     an `if` with an empty body becomes `if not test: orelse`
-  * de-duplicate global declarations
+  * de-duplicate global declarations (per function scope, keeping the textually first declaration that survives dead-code removal)
   * operator.X(a, b) -> native operator with the same operands in the same order and the same meaning
     (`contains(a, b)` -> `b in a` only when the swap of evaluation order cannot be observed: one operand is a name or constant)
 """
@@ -50,6 +50,7 @@ class Canon(ast.NodeTransformer):
     def __init__(self, alias, ops=True):
         self.alias = alias
         self.ops = ops
+        self._seen = [set()]
 
     # ---- statements ---------------------------------------------------------------------------------------------------
     def _body(self, stmts):
@@ -65,28 +66,30 @@ class Canon(ast.NodeTransformer):
                     return out
         return out
 
-    def _globals_dedupe(self, body):
-        seen = set()
-        out = []
-        for s in body:
-            if isinstance(s, ast.Global):
-                names = [n for n in s.names if n not in seen]
-                seen.update(names)
-                if names:
-                    out.append(ast.Global(names=sorted(names)))
-            else:
-                out.append(s)
-        return out
+    # global declarations: a declaration holds for the whole function (or module / class) scope it appears in, so a later one for the
+    # same name in the same scope is redundant wherever it is nested; a nested function is a scope of its own. Statements are visited
+    # in textual order and unreachable ones are never visited, so a declaration that only occurs in dropped code does not count.
+    def _scope(self, fn):
+        self._seen.append(set())
+        try:
+            return fn()
+        finally:
+            self._seen.pop()
+
+    def visit_Global(self, node):
+        names = [n for n in node.names if n not in self._seen[-1]]
+        self._seen[-1].update(names)
+        return ast.Global(names=sorted(names)) if names else None
 
     def visit_Module(self, node):
-        return ast.Module(body=self._globals_dedupe(self._body(node.body)), type_ignores=[])
+        return ast.Module(body=self._scope(lambda: self._body(node.body)), type_ignores=[])
 
     def visit_FunctionDef(self, node):
         new = copy.copy(node)
         new.args = self.generic_visit(copy.deepcopy(node.args))
         new.decorator_list = [self.visit(d) for d in node.decorator_list]
         new.returns = self.visit(node.returns) if node.returns is not None else None
-        new.body = self._globals_dedupe(self._body(node.body)) or [ast.Pass()]
+        new.body = self._scope(lambda: self._body(node.body)) or [ast.Pass()]
         return new
 
     visit_AsyncFunctionDef = visit_FunctionDef
@@ -96,7 +99,7 @@ class Canon(ast.NodeTransformer):
         new.bases = [self.visit(x) for x in node.bases]
         new.keywords = [self.generic_visit(copy.deepcopy(k)) for k in node.keywords]
         new.decorator_list = [self.visit(d) for d in node.decorator_list]
-        new.body = self._body(node.body) or [ast.Pass()]
+        new.body = self._scope(lambda: self._body(node.body)) or [ast.Pass()]
         return new
 
     def visit_Expr(self, node):
@@ -129,17 +132,18 @@ class Canon(ast.NodeTransformer):
         return ast.With(items=[self.generic_visit(copy.deepcopy(i)) for i in node.items], body=self._body(node.body) or [ast.Pass()])
 
     def visit_Try(self, node):
+        body = self._body(node.body) or [ast.Pass()]  # textual order: body, handlers, else, finally
         handlers = []
         for h in node.handlers:
             handlers.append(ast.ExceptHandler(type=self.visit(h.type) if h.type is not None else None, name=h.name, body=self._body(h.body)))
+        orelse = self._body(node.orelse)
         final = self._body(node.finalbody)
         final = [s for s in final if not isinstance(s, ast.Pass)]
         if not final and not handlers:
             final = [ast.Pass()]  # a try needs a handler or a non-empty finally to be valid Python
-        body = self._body(node.body) or [ast.Pass()]
         for h in handlers:
             h.body = h.body or [ast.Pass()]
-        return ast.Try(body=body, handlers=handlers, orelse=self._body(node.orelse), finalbody=final)
+        return ast.Try(body=body, handlers=handlers, orelse=orelse, finalbody=final)
 
     def visit_Pass(self, node):
         return None
